@@ -136,6 +136,7 @@ def gen_function(contract, contracts, known=()):
             interp.call_log = []
             S.GHOST["fft"] = []
             S.GHOST["sum"] = []
+            S.GHOST["ndi"] = []
             interp.write_log = []
             interp.spec = 0
             V.reset_fresh()
@@ -175,7 +176,15 @@ def gen_function(contract, contracts, known=()):
                 if isinstance(text, dict):
                     emit_structured(interp, contract, path, name, text, bound, result, known, case_tag)
                     continue
-                g = contract.eval_clause(interp, text, bound, {"result": result})
+                try:
+                    g = contract.eval_clause(interp, text, bound, {"result": result})
+                except X.PyRaise as e:
+                    # the clause itself runs program code (e.g. it calls a returned pipeline object): an exception
+                    # there means the clause cannot hold
+                    ename = e.exc.cls.name if isinstance(e.exc, X.Obj) else str(e.exc)
+                    g = False
+                    interp_msg = str(e.exc.attrs.get("args", ""))[:160] if isinstance(e.exc, X.Obj) else ""
+                    path.notes.append(f"ensures.{name}: evaluation raised {ename} {interp_msg}")
                 nat = (contract.native or {}).get(name)
                 kh, hits = _known_hyps(interp, contract, known, f"{contract.key}/ensures.{name}{case_tag}", bound,
                                        {"result": result})
@@ -379,7 +388,10 @@ def build_replay(pid, contract, ob_name, meta, model, verdict_raw):
                 "if raised is not None:",
                 "    print('real code raised an exception under a satisfied precondition instead of returning:', repr(raised))",
                 "    print('CONFIRMED'); sys.exit(1)",
-                f"ok = bool(eval({clause!r}, env))",
+                "try:",
+                f"    ok = bool(eval({clause!r}, env))",
+                "except Exception as _e:",
+                "    print('evaluating the clause on the real objects raised', repr(_e)); ok = False",
                 "print('clause holds natively:', ok)",
                 "print('CONFIRMED' if not ok else 'NOT-CONFIRMED'); sys.exit(1 if not ok else 0)",
             ]
